@@ -9,5 +9,6 @@ CONSTANTS
   TrackContent = TRUE
   MaxInserts = 5
   ExceededUsesCapacity = TRUE
+  GenLen = 0
 INVARIANTS Bookkeeping LiveBound2 OutputCorrect
 CHECK_DEADLOCK FALSE
